@@ -38,7 +38,7 @@ type Scenario struct {
 const SinkA = `Alpha one
 =========
 
-## Beta *two* {#idA .clsA data-a="vA"}
+## Beta *two* {#idA .clsA data-a="vA" title=tA lang=lA slot=sA draggable=true itemref=iA dir=ltr role=rA tabindex=1 hidden accesskey=kA spellcheck=false translate=no style="c:A"}
 
 - tight1
 - tight2
@@ -103,7 +103,7 @@ TermA
 const SinkB = `Bravo uno
 =========
 
-## Delta *dos* {#idB .clsB data-b='vB'}
+## Delta *dos* {#idB .clsB data-b='vB' translate=yes spellcheck=true accesskey=kB tabindex=2 role=rB dir=rtl itemref=iB draggable=false slot=sB lang=lB title=tB style="c:B" inert}
 
 - sharp1
 - sharp2
@@ -168,8 +168,8 @@ TermB
 const (
 	// numeric references and escapes but no named entity: the entity table (21 k statements to build) is raced in S6
 	tiny1 = "a *b* [c](/d&#65;\\_ \"t&#66;\") [Äx]\n\n[äX]: /f1\n"
-	tiny2 = "# e &#67;\n\n- f `g` [h](/i&#x68; 'u&#x69;') [Жy][]\n\n[жY]: /f2\n"
-	tiny3 = "> h &#74;\n\n1. i ![j](/k&#75;) [Σz]\n\n[σZ]: /f3\n"
+	tiny2 = "# e &#67; {title=t2 lang=l2 slot=s2}\n\n- f `g` [h](/i&#x68; 'u&#x69;') [Жy][]\n\n[жY]: /f2\n"
+	tiny3 = "> h &#74;\n\n## k {slot=s3 title=t3 lang=l3 itemref=i3}\n\n1. i ![j](/k&#75;) [Σz]\n\n[σZ]: /f3\n"
 	warm  = "warm *up* &amp; [x](/y) `z`\n\n| a |\n|---|\n| b |\n"
 	ent1  = "&amp; x &copy;\n"
 	ent2  = "[a](/u?&para;=1 \"&reg;\")\n"
